@@ -809,6 +809,61 @@ func TestC02(t *testing.T) {
 			}, "orderedItems"},
 			{"ItemCollection", func(l ap.ItemCollection) interface{} { return l }, ""},
 		}
+		verify := func(cell, hname, term string, x interface{}, names, wantIDs []string, nMembers, done int) {
+			var b []byte
+			var err error
+			pi := evSafe(func() { b, err = x.(json.Marshaler).MarshalJSON() })
+			r.Case(cell, len(wantIDs) < nMembers, "empties holder="+hname)
+			if done%499 == 0 {
+				r.Sample(cell, map[string]interface{}{"layer": "empties", "holder": hname, "members": names, "output": string(b)})
+			}
+			key := "json-out empties " + hname + " "
+			switch {
+			case pi != nil:
+				r.Report("empties", cell, key+"panic@"+pi.Frame, pi.Value, cell)
+				return
+			case err != nil || len(b) == 0:
+				return
+			}
+			root, dups, _, perr := oracle.ParseJSON(b)
+			if perr != nil {
+				r.Report("empties", cell, key+"invalid-json", fmt.Sprintf("%v: %s", perr, b), cell)
+				return
+			}
+			if len(dups) > 0 {
+				r.Report("empties", cell, key+"dup-member", string(b), cell)
+			}
+			node := root
+			if term != "" {
+				node = root.Get(term)
+			}
+			var gotIDs []string
+			collect := func(n *oracle.Node) {
+				switch {
+				case n == nil:
+				case n.Kind == "string":
+					gotIDs = append(gotIDs, n.Str)
+				case n.Kind == "object":
+					if idn := n.Get("id"); idn != nil {
+						gotIDs = append(gotIDs, idn.Str)
+					} else {
+						gotIDs = append(gotIDs, "<object without id>")
+					}
+				default:
+					gotIDs = append(gotIDs, "<"+n.Kind+">")
+				}
+			}
+			if node != nil && node.Kind == "array" {
+				for _, e := range node.Elems {
+					collect(e)
+				}
+			} else {
+				collect(node)
+			}
+			if strings.Join(gotIDs, " ") != strings.Join(wantIDs, " ") {
+				r.Report("empties", cell, key+"members", fmt.Sprintf("written members %v, the list's members that have something to say are %v: %s", gotIDs, wantIDs, b), cell)
+			}
+		}
 		total, done := 0, 0
 		for _, h := range holders {
 			for _, cb := range combos {
@@ -827,60 +882,54 @@ func TestC02(t *testing.T) {
 					continue
 				}
 				done++
-				x := h.mk(l)
-				var b []byte
-				var err error
-				pi := evSafe(func() { b, err = x.(json.Marshaler).MarshalJSON() })
-				r.Case(cell, len(wantIDs) < len(cb), "empties holder="+h.name)
-				if done%499 == 0 {
-					r.Sample(cell, map[string]interface{}{"layer": "empties", "holder": h.name, "members": names, "output": string(b)})
-				}
-				key := "json-out empties " + h.name + " "
-				switch {
-				case pi != nil:
-					r.Report("empties", cell, key+"panic@"+pi.Frame, pi.Value, cell)
-					continue
-				case err != nil || len(b) == 0:
+				verify(cell, h.name, h.term, h.mk(l), names, wantIDs, len(cb), done)
+			}
+		}
+		// the same for every item-typed and list-typed property of every type, the value holding everything else its type can hold:
+		// whatever follows a property that turned out to have nothing to say still has to be joined correctly
+		for _, st := range vocab.StructTypes {
+			x := vocab.Everything(st, false)
+			for _, f := range vocab.Fields(st) {
+				if f.Kind != vocab.KItem && f.Kind != vocab.KItems {
 					continue
 				}
-				root, dups, _, perr := oracle.ParseJSON(b)
-				if perr != nil {
-					r.Report("empties", cell, key+"invalid-json", fmt.Sprintf("%v: %s", perr, b), cell)
-					continue
-				}
-				if len(dups) > 0 {
-					r.Report("empties", cell, key+"dup-member", string(b), cell)
-				}
-				node := root
-				if h.term != "" {
-					node = root.Get(h.term)
-				}
-				var gotIDs []string
-				collect := func(n *oracle.Node) {
-					switch {
-					case n == nil:
-					case n.Kind == "string":
-						gotIDs = append(gotIDs, n.Str)
-					case n.Kind == "object":
-						if idn := n.Get("id"); idn != nil {
-							gotIDs = append(gotIDs, idn.Str)
-						} else {
-							gotIDs = append(gotIDs, "<object without id>")
+				fv := reflect.ValueOf(x).Elem().Field(f.Index)
+				orig := reflect.New(fv.Type()).Elem()
+				orig.Set(fv)
+				for _, cb := range combos {
+					fv.Set(orig)
+					if len(cb) > 2 {
+						continue
+					}
+					total++
+					var names, wantIDs []string
+					l := ap.ItemCollection{}
+					for _, k := range cb {
+						l = append(l, alphabet[k].mk())
+						names = append(names, alphabet[k].name)
+						if alphabet[k].id != "" {
+							wantIDs = append(wantIDs, alphabet[k].id)
 						}
+					}
+					hname := st.Name() + "." + f.Name + "+rest"
+					cell := hname + " [" + strings.Join(names, ",") + "]"
+					if !r.WantCell(cell) {
+						continue
+					}
+					done++
+					switch {
+					case f.Kind == vocab.KItems:
+						fv.Set(reflect.ValueOf(l))
+					case len(l) == 1 && l[0] == nil:
+						fv.Set(reflect.Zero(fv.Type()))
+					case len(l) == 1:
+						fv.Set(reflect.ValueOf(l[0]))
 					default:
-						gotIDs = append(gotIDs, "<"+n.Kind+">")
+						fv.Set(reflect.ValueOf(l))
 					}
+					verify(cell, hname, f.Term, x, names, wantIDs, len(cb), done)
 				}
-				if node != nil && node.Kind == "array" {
-					for _, e := range node.Elems {
-						collect(e)
-					}
-				} else {
-					collect(node)
-				}
-				if strings.Join(gotIDs, " ") != strings.Join(wantIDs, " ") {
-					r.Report("empties", cell, key+"members", fmt.Sprintf("written members %v, the list's members that have something to say are %v: %s", gotIDs, wantIDs, b), cell)
-				}
+				fv.Set(orig)
 			}
 		}
 		r.Cells(total, done)
